@@ -243,7 +243,7 @@ impl Prop for C09 {
     }
     fn build(&self, ch: &mut Chooser, cx: &mut CaseCtx) -> C09Case {
         let thorough = cx.env.tier == Tier::Thorough;
-        let o = WsGenOpts { fail_chance: 2, max_patches: if thorough { 12 } else { 6 }, max_files: 5, strict_reject_dirs: true, alt_name_chance: 2, ..Default::default() };
+        let o = WsGenOpts { fail_chance: 2, max_patches: if thorough { 12 } else { 6 }, max_files: 5, alt_name_chance: 2, ..Default::default() };
         let ws = gen_ws(ch, cx, &o);
         let n = ws.metas.len();
         let goal = if ch.chance(1, 2) { n } else { ch.range(1, n) };
@@ -558,7 +558,7 @@ impl Prop for C14 {
     }
     fn build(&self, ch: &mut Chooser, cx: &mut CaseCtx) -> C14Case {
         let thorough = cx.env.tier == Tier::Thorough;
-        let o = WsGenOpts { fail_chance: 4, max_patches: if thorough { 10 } else { 5 }, strict_reject_dirs: true, ..Default::default() };
+        let o = WsGenOpts { fail_chance: 4, max_patches: if thorough { 10 } else { 5 }, ..Default::default() };
         let mut ws = gen_ws(ch, cx, &o);
         // sometimes a zero-length patch file
         if ch.chance(1, 6) {
